@@ -35,8 +35,8 @@ class AbstractReader(object):
             filenames.append(mibname.lower())
 
         if self.fuzzyMatching and filenames:
-            part = filenames[-1].find('-mib')
-            if part != -1:
+            if filenames[-1].lower().endswith('-mib'):
+                part = len(filenames[-1]) - len('-mib')
                 filenames.extend(
                     [x[:part] for x in filenames]
                 )
